@@ -21,6 +21,9 @@ import (
 // Readers lists the eight reader configurations the property names.
 var Readers = []string{"fasta", "fastq", "bed3", "bed4", "bed5", "bed6", "bed12", "gff"}
 
+// FastqVariants are further FASTQ reader configurations (template type and quality encoding).
+var FastqVariants = []string{"fastq-plain", "fastq-solexa", "fastq-illumina1_3", "fastq-illumina1_5", "fastq-illumina1_8", "fastq-none"}
+
 type readFn func() (rec interface{}, isNil bool, err error)
 
 func newReader(kind string, data []byte) readFn {
@@ -33,6 +36,11 @@ func newReader(kind string, data []byte) readFn {
 		return func() (interface{}, bool, error) { s, err := r.Read(); return s, s == nil, err }
 	case "fastq":
 		r := fastq.NewReader(bytes.NewReader(data), linear.NewQSeq("", nil, alphabet.DNA, alphabet.Sanger))
+		return func() (interface{}, bool, error) { s, err := r.Read(); return s, s == nil, err }
+	case "fastq-solexa", "fastq-illumina1_3", "fastq-illumina1_5", "fastq-illumina1_8", "fastq-none":
+		enc := map[string]alphabet.Encoding{"fastq-solexa": alphabet.Solexa, "fastq-illumina1_3": alphabet.Illumina1_3, "fastq-illumina1_5": alphabet.Illumina1_5,
+			"fastq-illumina1_8": alphabet.Illumina1_8, "fastq-none": alphabet.None}[kind]
+		r := fastq.NewReader(bytes.NewReader(data), linear.NewQSeq("", nil, alphabet.DNA, enc))
 		return func() (interface{}, bool, error) { s, err := r.Read(); return s, s == nil, err }
 	case "fastq-plain":
 		r := fastq.NewReader(bytes.NewReader(data), linear.NewSeq("", nil, alphabet.DNA))
